@@ -74,7 +74,10 @@ func (t *_ticker) run() {
 
 		case <-t.resetch:
 			if !timer.Stop() {
-				<-timer.C
+				select {
+				case <-timer.C:
+				default:
+				}
 			}
 			timer.Reset(t.nextPeriod())
 			nextch = nil
